@@ -198,6 +198,61 @@ def real_tls(wk, eager):
         s.cleanup()
 
 
+def real_hostile(wk, kind):
+    """real process, hostile clients that do not read / do not send:
+    hugepage  a request whose error page is several MB (a header line without colon is echoed), from a client with a tiny
+              receive buffer that never reads and keeps the connection open;
+    empties   more connect-and-close clients (the empty byte stream) than the worker has connection slots.
+    The next connection must be served by the same worker."""
+    import socket
+    import time
+    from drivers import realproc as rp
+    args = ["--keep-alive", "1", "--timeout", "60"]
+    if kind == "empties":
+        args += ["--worker-connections", "6"]
+    s = rp.Server(wk, workers=1, threads=2 if wk == "gthread" else None, args=args, name="c05h")
+    held = []
+    try:
+        s.start()
+        wp = s.wait_booted(1)
+        if kind == "hugepage":
+            c = socket.socket(socket.AF_INET, socket.SOCK_STREAM)
+            c.setsockopt(socket.SOL_SOCKET, socket.SO_RCVBUF, 2048)
+            c.settimeout(10)
+            c.connect(("127.0.0.1", s.port))
+            try:
+                c.sendall(b"GET /bad HTTP/1.1\r\n" + b'"' * 810000 + b"\r\n\r\n")
+            except OSError:
+                pass
+            held.append(c)                  # never read, never closed while the next client is served
+            time.sleep(1.0)
+        else:
+            for _ in range(10):
+                c = s.connect(timeout=5)
+                c.close()
+                time.sleep(0.05)
+            time.sleep(0.5)
+        t0 = time.time()
+        try:
+            st2, body2, info2 = s.get("/pid", timeout=6)
+            next_ok = st2 == 200 and rp.parse_ident(body2)[0] in wp
+        except OSError:
+            next_ok = False
+        alive = [p for p in wp if rp.proc_state(p) not in (None, "Z")]
+        ev = [{"e": "end", "closed": True, "escaped": False, "appcalls": 0, "appfail": 0, "alive": len(alive) == len(wp),
+               "next_ok": bool(next_ok), "sent_requests": -1}]
+        return {"ms": [], "cut": 0, "oracle": 0, "fault": "none", "ev": ev}, \
+            {"kind": wk, "bytes": "hostile client: " + kind, "cuts": [], "fault": "real-" + kind, "fault_at": 0, "src": "real-hostile",
+             "escaped": None, "wire": "", "waited_s": round(time.time() - t0, 1)}
+    finally:
+        for c in held:
+            try:
+                c.close()
+            except OSError:
+                pass
+        s.cleanup()
+
+
 def real_keepalive(wk, tail):
     """real process, keep-alive on: one complete request, then silence or a truncated request for longer than the
     keep-alive time; the server must close without sending anything that was not asked for"""
@@ -353,12 +408,18 @@ def c05(ctx):
             traces.append(t)
             metas.append(m)
     ctx.coverage["real_process_tls_peers"] = len(tplan) * len(HOSTILE_TLS)
+    # 8. real processes: clients that never read a multi-megabyte error page / that connect and leave without a byte
+    hplan = [("sync", "hugepage"), ("gthread", "empties"), ("gthread", "hugepage")] if ctx.quick else \
+        [(wk, k) for wk in ("sync", "gthread", "gevent", "eventlet") for k in ("hugepage", "empties")]
+    for t, m in _parallel(hplan, lambda a, i: real_hostile(a[0], a[1]), par=8):
+        traces.append(t)
+        metas.append(m)
     verdicts, stats = tlc.validate_batch("ConnTrace", "ConnTrace.cfg", traces, name="ConnTrace_C05", chunk=4000)
     ctx.add_traces(len(traces), stats)
     for t, m, (v, step) in zip(traces, metas, verdicts):
         if v == "ok":
             continue
-        sig = "C05/%s/wk=%s/fault=%s" % (v, m["kind"], m["fault"] if str(m.get("fault", "")).startswith("tls-") else t["fault"])
+        sig = "C05/%s/wk=%s/fault=%s" % (v, m["kind"], m["fault"] if str(m.get("fault", "")).startswith(("tls-", "real-")) else t["fault"])
         if m["escaped"]:
             sig += "/exc=%s" % m["escaped"]
         ctx.violation(sig, "%s: %s" % (v, json.dumps(m)[:500]), {"trace": t, "meta": m})
